@@ -311,6 +311,7 @@ def reference_filter(schedule, include, exclude):
 
 # ---------------------------------------------------------------------------------------------
 class RaceHarness(Harness):
+    gc_discipline = True  # see sim/batch.py run_case
     name = "race"
     properties = ("C01", "C07", "C09", "C11")
 
